@@ -16,6 +16,8 @@
 (*  mon.C08.hook    Props!P_C08 (the strict x passthrough matrix differs   *)
 (*                  only in failure reporting) with logged answers;        *)
 (*  mon.C07.hook.<law>  the answer-to-answer laws on raw logged values     *)
+(*  mon.C07.warnings_as_errors  a derived operation answers the same with  *)
+(*                  warnings turned into errors (python -W error)          *)
 (*                  (they need neither the records nor the graph).         *)
 (***************************************************************************)
 EXTENDS Naturals, Sequences, FiniteSets, TLC, Json, IOUtils
@@ -75,6 +77,8 @@ LawBad(call) ==
     THEN (IF ~IsVal(a["compress_or_standardize"]) \/ S(a["compress_or_standardize"][2]) # S(a["parse"][2][1]) \o d \o S(a["parse"][2][2])
           THEN {"mon.C07.hook.compress_or_standardize"} ELSE {})
     ELSE (IF a["compress_or_standardize"] # <<"none">> THEN {"mon.C07.hook.compress_or_standardize"} ELSE {}))) \cup
+  {"mon.C07.warnings_as_errors" : m \in {m \in {"is_uri", "is_curie", "parse", "compress_or_standardize", "expand_or_standardize"} :
+                                           (m \o "#w") \in DOMAIN a /\ a[m \o "#w"] # a[m]}} \cup
   (IF a["compress_strict"] # a["compress@s"] THEN {"mon.C07.hook.compress_strict"} ELSE {}) \cup
   (IF a["expand_strict"] # a["expand@s"] THEN {"mon.C07.hook.expand_strict"} ELSE {})
 CallBad(call) ==
